@@ -643,6 +643,16 @@ def directed_cases():
         # F-C15-2: use returned, the workspace link is not created yet, another project cleans
         ("gc-between-use-and-link", [F(_inst(100, 1)),
                                      S([_use(0, 1, True), _gc()], [(0, ("symlink",)), (1, "done"), (0, "done")])]),
+        # policy: oldest unused first, stop exactly when the quota is met (sizes 26, 19, 12; quota = total - 19)
+        ("policy-oldest-first-until-quota", [F(_inst(100, 3)), F(_inst(101, 2)), F(_inst(102, 1)), F(_use(3, 3)),
+                                             F(_use(0, 1, True)), F(_gc(False, False, True, 38)), F(_gc(False, False, False, 38)),
+                                             F(_gc(False, True, False, 38))]),
+        # automatic gc at the end of an install never removes the package that was just installed
+        ("auto-gc-keeps-new-package", [F(_inst(100, 1)), F(_inst(101, 2, False, 0)), F(_use(2, 2, True)),
+                                       F(_inst(102, 3, False, 0))]),
+        # a result whose hash differs at the destination is rejected and never becomes visible
+        ("wrong-hash-install", [S([_inst(100, 1, claimed=21, prep={"src": 1, "audit": True, "hashes": [21]})], [(0, "done")]),
+                                F(_inst(101, 1)), F(_inst(102, 2, hasAudit=False, prep={"src": 2, "audit": False}))]),
     ]
 
 
